@@ -237,13 +237,20 @@ class InterfaceLDM3:
             # provider registration, not an object).
             stored = self.ldm_service.ldm_maintenance.get_provider_data(
                 data_provider.data_object_id)
-            if stored is not None:
-                self.ldm_service.ldm_maintenance.del_provider_data(stored)
-            return DeleteDataProviderResp(
-                data_provider.application_id,
-                data_provider.data_object_id,
-                DeleteDataProviderResult.SUCCEED,
-            )
+            # The store removes by content: when a concurrent update has replaced the record in the
+            # meantime nothing is removed, so read it again; stop when this call removed it or it is gone.
+            while stored is not None:
+                if self.ldm_service.ldm_maintenance.del_provider_data(stored) is not False:
+                    return DeleteDataProviderResp(
+                        data_provider.application_id,
+                        data_provider.data_object_id,
+                        DeleteDataProviderResult.SUCCEED,
+                    )
+                replaced = self.ldm_service.ldm_maintenance.get_provider_data(
+                    data_provider.data_object_id)
+                if replaced == stored:
+                    break  # not replaced: the store does not remove this record
+                stored = replaced
         return DeleteDataProviderResp(
             data_provider.application_id,
             data_provider.data_object_id,
